@@ -87,7 +87,8 @@ fn sanitize(id: &str, slot: &str, text: &str) -> String {
         }
         _ => {}
     }
-    if slot == "rule-key" && t.is_empty() {
+    // an empty key is expressible where keys are NUL-terminated strings of a counted list (Valve rules, Unreal 2)
+    if slot == "rule-key" && t.is_empty() && !matches!(id, "teamfortress2" | "counterstrike" | "theship" | "killingfloor") {
         t = "k".into();
     }
     t
